@@ -186,3 +186,8 @@ func TestC18Leader(t *testing.T) {
 		kit.Record("C18", "leader|"+strings.Join(kase.Steps, ";"), true, func() interface{} { return kase }, "leader-only")
 	})
 }
+
+// TestC18Large: the client's state can be read (Connected, Cache, Rows) while and after a
+// cache of 67200 rows - more than the event buffer holds - is rebuilt after a connection
+// loss (the history of TestC16Large under the hang watchdog).
+func TestC18Large(t *testing.T) { largeResync(t, "C18") }
